@@ -72,6 +72,7 @@ type Ctx struct {
 	mutFields     map[*types.Var]bool
 	nonNilGlobals map[*ssa.Global]bool
 	nonNilDone    map[*ssa.Global]bool
+	pureMemo      map[*ssa.Function]int
 }
 
 func (c *Ctx) note(format string, a ...interface{}) {
